@@ -1,6 +1,8 @@
 """C18  Message statistics equal what actually crossed the wire."""
 import random
 
+from vlib import budget
+
 from vlib import session as S
 from vlib.monitors import StatMonitor
 from vlib import corpus, mutate
@@ -18,7 +20,7 @@ ASSUMPTIONS = ['simulated Twisted reactor/transport (verif/shims)', 'reference d
 SHARD_TIMEOUT = {'quick': 240, 'thorough': 1500}
 DEPTH = {'quick': (3, 6), 'thorough': (4, 8)}
 PARTS = {'quick': 12, 'thorough': 15}
-WALKS = {'quick': (320, 150), 'thorough': (2000, 400)}
+WALKS = {'quick': (320, 150), 'thorough': (8000, 400)}
 BUDGET = {'quick': 40, 'thorough': 700}
 REST = ('R_UPD', 'R_WD', 'R_RR', 'R_BIN', 'R_RR6', 'R_RRVPN', 'R_UPDBAD', 'R_UPDNOATTR', 'R_BINBAD')
 ALPHA = S.ALPHABET_C01 + ['OPEN_nocap', 'UPD_atoverrun'] + S.ODD_LENGTH
@@ -87,13 +89,15 @@ def run_shard(sh):
             alpha = ['OPEN', 'KA', 'OPEN_h9', 'NOTI_CEASE', 'BADLEN'] + sorted(fuzz)
             weights.update(OPEN=20, KA=20)
         for i in range(sh['n']):
+            if budget.expired():
+                break
             r = S.random_walk(cfg, [StatMonitor], alpha, rng, sh['length'], multi=False, rest=REST, weights=weights)
             note(r)
             res['evaluations'] += 1
             res['distinct'].append('walk|%d|%d' % (sh['seed'], i))
             if i == 0:
                 res['samples'].append(dict(walk=r.seq[:40]))
-        res['counters'] = dict(walks=sh['n'], **stats)
+        res['counters'] = dict(walks=res['evaluations'], **stats)
     res['maxima'].update({'max_' + k: v for k, v in totals.items()})
     res['violations'] = list(viol.values())
     if sh.get('fuzz'):
